@@ -31,6 +31,9 @@ NODE = ("class", "Node", [("val", "int"), ("tags", "[int...]"), ("next", "Self?"
          ("add", [("d", "int")], "int", [("expr", M("self", "inc")), ("return", ("bin", "+", SF("val"), V("d")))]),
          ("tag", [("t", "int")], None, [("if", ("bin", "<", M(SF("tags"), "len"), I(2)), [("expr", M(SF("tags"), "push", V("t")))], None)]),
          ("link", [("o", "Self")], None, [("setfield", V("self"), "next", V("o"))]),
+         # methods declared `-> Self` that hand back ANOTHER object: the next link of a call chain must run on what was returned
+         ("other", [("o", "Self")], "Self", [("return", V("o"))]),
+         ("via", [("o", "Self")], "Self", [("return", M(M("self", "other", V("o")), "inc"))]),
          # list-valued field stores: share another object's list, replace the list by a fresh one (equal contents, other identity)
          ("adopt", [("o", "Self")], None, [("setfield", V("self"), "tags", F("o", "tags"))]),
          ("reset", [], None, [("setfield", V("self"), "tags", ("list", []))]),
@@ -78,6 +81,9 @@ TEMPLATES["graph"] = dict(
          ("expr", M("b", "link", V("a"))), ("expr", M("a", "link", V("a"))), ("expr", M("a", "unlink")),
          ("print", M("a", "next_val")), ("print", M("b", "next_val")),
          lambda k: [asg(f"r{k}", M(M("a", "inc"), "inc")), ("print", ("is", V(f"r{k}"), V("a")))],
+         ("expr", M(M("a", "other", V("b")), "inc")), ("expr", M(M("b", "other", V("a")), "tag", I(1))),
+         ("expr", M(M(M("a", "other", V("b")), "other", V("c")), "inc")), ("expr", M("a", "via", V("b"))),
+         lambda k: [asg(f"ch{k}", M(M("b", "other", V("a")), "inc")), ("print", ("is", V(f"ch{k}"), V("a"))), ("print", ("is", V(f"ch{k}"), V("b")))],
          ("setfield", V("a"), "tags", F("b", "tags")), ("expr", M("b", "adopt", V("a"))), ("expr", M("a", "reset")), ("expr", M("c", "copytags")),
          ("print", F("a", "val")), ("print", F("c", "tags")), ("setfield", V("a"), "val", I(2)), ("setfield", V("c"), "val", I(0)),
          ("expr", M(F("a", "leaf"), "bump")), ("print", F(F("b", "leaf"), "n")), ("setfield", V("b"), "leaf", F("a", "leaf")),
@@ -134,7 +140,7 @@ class C08(EHistCheck):
     quick_cap_s = 45
     thorough_cap_s = 40 * 60
     rule = ("breadth-first search over histories of constructions, aliasings, passing to / returning from functions, storing in / reading "
-            "from a list, method calls (incl. a method returning Self, chained calls, a method calling another method), field reads and "
+            "from a list, method calls (incl. a method returning Self, chained calls - also through methods declared -> Self that return another object -, a method calling another method), field reads and "
             "writes (scalar, list, optional-class and class fields; a list field is shared with another object's, replaced by a fresh empty list and by a clone of itself) and `is` tests on two class graphs (Node/Leaf with a self-referential "
             "optional link and a shared sub-object; Pair/Leaf with object-valued constructor parameters, swapping and fresh sub-objects); "
             "model = reference interpreter with records of cells; states de-duplicated on the values of observer expressions that expose "
